@@ -10,10 +10,10 @@ for f in glob.glob(src+"/demo%s*"%k):
     if os.path.isdir(f): shutil.copytree(f,dst+"/"+os.path.basename(f),dirs_exist_ok=True)
     else: shutil.copy(f,dst+"/"+os.path.basename(f).replace("_test.go","_test.go.txt"))
 if os.path.exists(src+"/README%s.txt"%k): shutil.copy(src+"/README%s.txt"%k,dst+"/README.txt")
-meta={"property":ID[:3],"round":(6 if ID.endswith("f") else 5 if ID.endswith("e") else 4 if ID.endswith("d") else 3 if ID.endswith("c") else 2 if ID.endswith("b") else 1),"seed":int(k),"origin":"independent sub-agent given only the property text and a scratch worktree",
+meta={"property":ID[:3],"round":(7 if ID.endswith("g") else 6 if ID.endswith("f") else 5 if ID.endswith("e") else 4 if ID.endswith("d") else 3 if ID.endswith("c") else 2 if ID.endswith("b") else 1),"seed":int(k),"origin":"independent sub-agent given only the property text and a scratch worktree",
  "needs_to_manifest":needs,
  "demo":{"package_dir":pkg,"test":tn,"file":"demo%s_test.go.txt (rename to *_test.go inside package_dir)"%k},
  "confirmed":"in scratch worktree /tmp/seed/%s via /verif/seedrun.sh: demo passes on the unchanged tree, fails with patch.diff applied; go build ./... and the existing tests of the touched packages and the root package pass with the patch"%ID,
- "detected_by":det,"base_commit":("4d73db3 (the pinned commit plus the fix: commits up to it)" if ID[-1]=="c" else "0f42d54 or 9cca367 (the pinned commit plus the fix: commits up to it)" if ID[-1]=="f" else "6a9ec4c (the pinned commit plus the fix: commits up to it)" if ID[-1]=="e" else "5e682fa (the pinned commit plus the fix: commits up to it)" if ID[-1]=="d" else "870eb69 (the pinned commit plus the fix: commits up to it)" if ID[-1]=="b" else "the /repo HEAD at the time of round 1 (before fix 870eb69)")}
+ "detected_by":det,"base_commit":("9cca367 (the pinned commit plus the fix: commits up to it)" if ID[-1]=="g" else "4d73db3 (the pinned commit plus the fix: commits up to it)" if ID[-1]=="c" else "0f42d54 or 9cca367 (the pinned commit plus the fix: commits up to it)" if ID[-1]=="f" else "6a9ec4c (the pinned commit plus the fix: commits up to it)" if ID[-1]=="e" else "5e682fa (the pinned commit plus the fix: commits up to it)" if ID[-1]=="d" else "870eb69 (the pinned commit plus the fix: commits up to it)" if ID[-1]=="b" else "the /repo HEAD at the time of round 1 (before fix 870eb69)")}
 json.dump(meta,open(dst+"/meta.json","w"),indent=1)
 print("saved",dst)
